@@ -23,7 +23,7 @@ func (c20) Size(tier string) Size {
 	return Size{Batches: 4, Cases: 3000}
 }
 func (c20) Rule() string {
-	return "case = struct SHAPE built at run time with reflect.StructOf: 0-8 exported fields in any order; ID of string and non-string types with/without api and json tags; every supported attribute Go type and unsupported ones (float64, []int, map, struct, **string, *[]string, interface); api tag forms attr / rel / 'rel,' / 'rel,t' / 'rel,t,inv' / 'rel,a,b,c' / unknown words / none; json tags missing, empty, duplicate, 'id'-colliding. Check(value) is called; if it accepts, Wrap (by value and by pointer), BuildType, Type.New, Copy, New, Get/Set of every declared field with a value of the field's type, Set(id) and MarshalResource must not panic and the built type must equal my own reading of the tags; if it rejects, BuildType must fail and Wrap must refuse. Non-trivial = shape with >= 2 tagged fields; distinct = shape text."
+	return "case = struct SHAPE built at run time with reflect.StructOf: 0-8 exported fields in any order; ID of string and non-string types with/without api and json tags; every supported attribute Go type and unsupported ones (float64, []int, map, struct, **string, *[]string, interface); api tag forms attr / rel / 'rel,' / 'rel,t' / 'rel,t,inv' / 'rel,a,b,c' / unknown words / none; json tags missing, empty, duplicate, 'id'-colliding. Check(value) is called; if it accepts, Wrap (by value and by pointer), BuildType, Type.New, Copy, New, Get/Set of every declared field with a value of the field's type, Set(id) and MarshalResource must not panic and the built type must equal my own reading of the tags; if it rejects, BuildType must fail and Wrap must refuse. Also: two struct types written in Go source whose ID is promoted from an embedded struct (first and last field); after AddAttr/AddRel on one BuildType result, New() of it must not panic and New() of another BuildType result still has exactly the tagged fields. Non-trivial = shape with >= 2 tagged fields; distinct = shape text."
 }
 func (c20) Assumptions() []string {
 	return []string{"reflect.StructOf cannot create named struct types, unexported or embedded fields, or methods (so MetaHolder structs are not generated): those shapes are outside what this run-time technique reaches",
@@ -279,10 +279,45 @@ func (m c20) Case(c *Ctx, r *RNG) {
 }
 
 func (m c20) run(c *Ctx, sh c20shape, r *RNG) {
+	m.runType(c, sh.build(), sh.read(), jsonStr(sh), r)
+}
+
+// Struct types written in Go source (what reflect.StructOf cannot make): the ID and a field promoted from an
+// embedded struct.
+type C20Base struct {
+	ID string `json:"id" api:"emb"`
+}
+type c20Embedded struct {
+	C20Base
+	Name string   `json:"name" api:"attr"`
+	Many []string `json:"many" api:"rel,emb"`
+}
+type c20EmbeddedLast struct {
+	Name *int64 `json:"name" api:"attr"`
+	One  string `json:"one" api:"rel,emb2,back"`
+	C20Base2
+}
+type C20Base2 struct {
+	ID string `json:"id" api:"emb2"`
+}
+
+func (m c20) staticTypes(c *Ctx, r *RNG) {
+	c.Name = "embedded-id"
+	m.runType(c, reflect.TypeOf(c20Embedded{}), c20expect{typeName: "emb", tagged: 2,
+		attrs:   map[string]jsonapi.Attr{"name": {Name: "name", Type: jsonapi.AttrTypeString}},
+		rels:    map[string]jsonapi.Rel{"many": {FromType: "emb", FromName: "many", ToType: "emb"}},
+		goTypes: map[string]reflect.Type{"name": reflect.TypeOf(""), "many": reflect.TypeOf([]string{})}}, "struct{C20Base{ID string `json:\"id\" api:\"emb\"`}; Name string attr; Many []string rel,emb}", r)
+	c.Count("static_struct_types")
+	c.Name = "embedded-id-last"
+	m.runType(c, reflect.TypeOf(c20EmbeddedLast{}), c20expect{typeName: "emb2", tagged: 2,
+		attrs:   map[string]jsonapi.Attr{"name": {Name: "name", Type: jsonapi.AttrTypeInt64, Nullable: true}},
+		rels:    map[string]jsonapi.Rel{"one": {FromType: "emb2", FromName: "one", ToOne: true, ToType: "emb2", ToName: "back"}},
+		goTypes: map[string]reflect.Type{"name": reflect.TypeOf((*int64)(nil)), "one": reflect.TypeOf("")}}, "struct{Name *int64 attr; One string rel,emb2,back; C20Base2{ID string `json:\"id\" api:\"emb2\"`}}", r)
+	c.Count("static_struct_types")
+}
+
+func (m c20) runType(c *Ctx, st reflect.Type, exp c20expect, desc string, r *RNG) {
 	c.Count("evaluations")
-	st := sh.build()
-	exp := sh.read()
-	desc := jsonStr(sh)
 	val := reflect.New(st) // pointer to a zero struct
 	var checkErr error
 	if pi := Guard(func() { checkErr = jsonapi.Check(val.Elem().Interface()) }); pi != nil {
@@ -384,6 +419,27 @@ func (m c20) run(c *Ctx, sh c20shape, r *RNG) {
 			fail("Type.New", pi)
 			return
 		}
+		// a built type is a value of its own: giving it one more attribute does not reach into what its
+		// constructor makes (instances are still the struct: exactly the tagged fields)
+		{
+			var inst2 jsonapi.Resource
+			if pi := Guard(func() {
+				typ2, _ := jsonapi.BuildType(arg)
+				_ = typ2.AddAttr(jsonapi.Attr{Name: "zz-extra", Type: jsonapi.AttrTypeString})
+				_ = typ2.AddRel(jsonapi.Rel{FromType: typ2.Name, FromName: "zz-extra-rel", ToType: typ2.Name})
+				inst2 = typ2.New()
+				_ = inst2.Get("id")
+				inst2 = typ.New()
+			}); pi != nil {
+				fail("Type.New-after-AddAttr", pi)
+				return
+			}
+			if s := c20compareType(exp, inst2.GetType().Name, inst2.Attrs(), inst2.Rels()); s != "" {
+				c.Violate("instance-structure-differs/after-type-edit/"+strings.SplitN(s, ":", 2)[0], "after AddAttr/AddRel on another BuildType result, Type.New(): %s; shape %s", s, desc)
+				return
+			}
+			c.Count("new_after_type_edit")
+		}
 		if pi := Guard(func() { cp = w.Copy() }); pi != nil {
 			fail("Copy", pi)
 			return
@@ -430,7 +486,9 @@ func (m c20) run(c *Ctx, sh c20shape, r *RNG) {
 			}
 			var out []byte
 			fields := append(sortedKeys(exp.attrs), sortedKeys(exp.rels)...)
-			if pi := Guard(func() { out = jsonapi.MarshalResource(res, "/", fields, map[string][]string{exp.typeName: sortedKeys(exp.rels)}) }); pi != nil {
+			if pi := Guard(func() {
+				out = jsonapi.MarshalResource(res, "/", fields, map[string][]string{exp.typeName: sortedKeys(exp.rels)})
+			}); pi != nil {
 				fail("MarshalResource", pi)
 				return
 			}
@@ -512,5 +570,6 @@ func (m c20) Directed(c *Ctx) {
 	}
 	all = append(all, c20field{Name: "R1", Go: "string", JSON: sp("r1"), API: sp("rel,t,inv")}, c20field{Name: "R2", Go: "[]string", JSON: sp("r2"), API: sp("rel,users")})
 	m.run(c, mk(all...), r)
+	m.staticTypes(c, r)
 	_ = time.Now
 }
